@@ -150,6 +150,20 @@ def compare(sx, reps, features, det):
             if got.get("all") is not None:
                 sx.check(got["all"] == totals[kind], "C14.total==number-of-elements(%s)" % fmt,
                          detail=lambda m, got=got, kind=kind: dict(det(m), fmt=fmt, kind=kind, printed=got, total=totals[kind]))
+    # rendering the same reporter again (another stream, every format) prints the same numbers
+    rr = reps["v1"]
+    for fmt2 in FORMATS:
+        buf = io.StringIO()
+        rr.output_format = fmt2
+        rr.print_summary(buf)
+        parsed2 = parse_summary(buf.getvalue(), fmt2)
+        for kind in ("feature", "scenario", "step") + (("rule",) if totals["rule"] else ()):
+            got = parsed2.get(kind) or {}
+            names = set(cen[kind]) | (set(got) - {"all"})
+            sx.check(all(got.get(n, 0) == cen[kind].get(n, 0) for n in names) and (got.get("all") is None or got["all"] == totals[kind]),
+                     "C14.repeated-rendering-prints-the-same-numbers",
+                     detail=lambda m, got=got, kind=kind, fmt2=fmt2: dict(det(m), fmt=fmt2, kind=kind, printed=got, census=cen[kind], total=totals[kind]))
+    rr.output_format = "v1"
     r1 = reps["v1"]
     sx.check([id(s) for s in r1.failed_scenarios] == [id(s) for s in failing], "C14.failing-list==failed-scenarios",
              detail=lambda m: dict(det(m), listed=[s.name for s in r1.failed_scenarios], expected=[s.name for s in failing]))
